@@ -229,6 +229,42 @@ class Body:
                 out.append((b, t))
         return out
 
+    def bool_branch(self, call_bb):
+        """(switch block, false target, true target) of the switch that tests the bool result of the call ending call_bb"""
+        t = self.blocks[call_bb]["term"]
+        dest = t["dest"]["l"]
+        for b in sorted(self.reachable(t["target"]) if t.get("target") is not None else []):
+            tt = self.blocks[b]["term"]
+            if tt and tt["k"] == "switch":
+                o = self.origin(tt["discr"])
+                if o[0] == "call" and o[4] == call_bb:
+                    tg = {int(v): bb for v, bb in tt["targets"]}
+                    if 0 in tg:
+                        return b, tg[0], tt["otherwise"]
+                    if 1 in tg:
+                        return b, tt["otherwise"], tg[1]
+        return None
+
+    def loop_heads(self):
+        return {v for (_u, v) in self.back_edges()}
+
+    def reach_within_iteration(self, start):
+        """blocks reachable from `start` without passing through a loop head (the start itself is expanded even if it is one)"""
+        heads = self.loop_heads()
+        seen = set()
+        st = [start]
+        first = True
+        while st:
+            b = st.pop()
+            if b in seen:
+                continue
+            if b in heads and not first:
+                continue
+            first = False
+            seen.add(b)
+            st.extend(self.succs()[b])
+        return seen
+
     # ------------------------------------------------------------ def chains
     def defs(self):
         """local -> list of ('stmt', bb, idx, stmt) | ('call', bb, term) | ('arg',) definitions (whole-local writes only)"""
@@ -455,3 +491,24 @@ def fmt_origin(o, depth=0):
     if k == "discr":
         return "discr(%s)" % fmt_origin(o[1], depth + 1)
     return "%s" % (o,)
+
+
+def origin_calls(o, out=None):
+    """all ('call', def, resolved, ...) nodes inside an origin tree"""
+    if out is None:
+        out = []
+    if isinstance(o, tuple):
+        if o and o[0] == "call":
+            out.append(o)
+        for x in o:
+            if isinstance(x, (tuple, list)):
+                origin_calls(x, out)
+    elif isinstance(o, list):
+        for x in o:
+            origin_calls(x, out)
+    return out
+
+
+def origin_mentions_call(o, pattern):
+    r = re.compile(pattern)
+    return any(r.search(c[1] or "") or r.search(c[2] or "") for c in origin_calls(o))
